@@ -14,7 +14,7 @@ import gen_core as G
 from props import c03
 
 FILES = ["gen/Gen_core.v", "Model_core.v", "Spec_drex.v", "Proofs_core.v", "Proofs_total.v",
-         "Proofs_spec.v", "Inst_core.v", "Entry_core.v", "Extract_core.v"]
+         "Proofs_spec.v", "Proofs_tie.v", "Inst_core.v", "Entry_core.v", "Extract_core.v"]
 PROP = "Properties/C02.v"
 
 
